@@ -82,6 +82,15 @@ def lookup(f):
         return None
 
 
+class ListBase:
+    """Classes derived from list (shell_list): a PList that remembers its class."""
+
+    def __call__(self, I, cls, args, kwargs, node):
+        r = m_list(I, args, kwargs, node)
+        r.cls = cls
+        return r
+
+
 def lookup_base(cls):
     for k in cls.__mro__:
         if k in _BASES:
@@ -1419,6 +1428,9 @@ import io as _io
 @model(_io.StringIO)
 def m_stringio(I, args, kwargs, node):
     return PStream(args[0] if args else '')
+
+
+_BASES[list] = ListBase()
 
 
 # ---------------------------------------------------------------------------------------------
